@@ -141,6 +141,7 @@ func (t *table) Extend(by uint32) {
 		return
 	}
 	t.adjustCapacity(capPow2(required))
+	verifProbe(verifProbeTableGrow)
 }
 
 // CanShrink returns whether the table's capacity exceeds the next power-of-2 of what is required.
@@ -156,6 +157,7 @@ func (t *table) Shrink(minCapacity uint32) bool {
 		return false
 	}
 	t.adjustCapacity(target)
+	verifProbe(verifProbeTableShrink)
 	return true
 }
 
@@ -199,6 +201,7 @@ func (t *table) Remove(index uint32) bool {
 
 	if swapped {
 		size := entitySize
+		verifProbe(verifProbeSwapRemove)
 		src := unsafe.Add(t.entities.pointer, lastIndex*size)
 		dst := unsafe.Add(t.entities.pointer, uintptr(index)*size)
 		copyPtr(src, dst, size)
